@@ -311,7 +311,17 @@ def check_generated(kind, a, b, acc=None):
 
         kw = {"input_params": {"scale": 0.1, "shift": 0.3}}
         sb = dict(sb, float_param=True)
-    return check_callable(digest([kind, a, b]), fn, shapes, dts, acc, sb, case, kw, has_scope)
+    vs = check_callable(digest([kind, a, b]), fn, shapes, dts, acc, sb, case, kw, has_scope)
+    if kind == "prog":
+        # name the operator that produced the deviating output, so that a recorded finding does not hide other operators
+        import re
+
+        prod = {s["o"]: s["op"] + (":" + s["kw"]["f"] if isinstance(s.get("kw", {}).get("f"), str) else "") for s in a["stmts"] if not isinstance(s["o"], list)}
+        for v in vs:
+            m = re.match(r"output (\d+) ", v.get("detail", ""))
+            if m and int(m.group(1)) < len(a["outputs"]):
+                v["sig"]["op"] = prod.get(a["outputs"][int(m.group(1))], "input")
+    return vs
 
 
 def large_programs():
